@@ -80,6 +80,9 @@ type world struct {
 	sc   *b2fx.Scenario
 	lg   *mem.Log
 	a, b *mem.Station
+	// modem: both stations talk through modem-like connections (Flush blocks until the link has taken
+	// everything; TxBufferLen): what a station reports must not depend on the transport kind
+	modem bool
 }
 
 func newWorld(sc *b2fx.Scenario) *world {
@@ -90,6 +93,7 @@ func newWorld(sc *b2fx.Scenario) *world {
 
 func (w *world) session(plan vpipe.Plan) b2fx.Result {
 	sa, sb := w.sc.Sides(w.a, w.b)
+	sa.Modem, sb.Modem = w.modem, w.modem
 	plan.Seg = w.sc.Seg
 	res, _ := b2fx.RunPair(sa, sb, plan, false)
 	w.lg.NextSession()
@@ -191,6 +195,7 @@ func run(c vrt.Case) vrt.Obs {
 				j, capacity := 1+jc/3, []int{0, 1, 64}[jc%3]
 				o.Evals++
 				w := newWorld(sc)
+				w.modem = (jc/3+side)%2 == 1 // every other storage-error case on modem-like connections
 				st := w.a
 				if side == 1 {
 					st = w.b
